@@ -1,6 +1,6 @@
 (* C17 — property theorems only.  Each is closed by `exact` of a lemma of C17_Proofs.v. *)
 From Coq Require Import List NArith Bool Relations Sorting.Sorted.
-From Dae Require Import C17_Spec C17_Model C17_MergeSpec C17_Paths C17_Schema C17_Build C17_ProofsBuild C17_ProofsPaths C17_ProofsGlob C17_Proofs.
+From Dae Require Import C17_Spec C17_Model C17_MergeSpec C17_Paths C17_Schema C17_Build C17_ProofsBuild C17_ProofsPaths C17_ProofsGlob C17_Capacity C17_ProofsCapacity C17_Proofs.
 From Dae.gen Require Import Extracted_C17.
 Import ListNotations.
 Open Scope N_scope.
@@ -129,15 +129,46 @@ Print Assumptions C17_outside_never_read.
 (* Capacity: every rule program with more match sets than the supported size is answered with an error, and
    no program - whatever its size and wherever its domain sets are (their indices are rule indices, below the
    number of match sets) - crashes the builder. *)
-Theorem C17_over_limit_is_error :
+Theorem C17_guard_over_limit_is_error :
   forall n ds, max_match_set_len <? n = true -> build_userspace n ds = WErr.
 Proof. exact C17_over_limit_is_error_proof. Qed.
+Print Assumptions C17_guard_over_limit_is_error.
+
+Theorem C17_guard_never_crashes :
+  forall n ds, (forall i, In i ds -> i < n) -> build_userspace n ds <> WCrashed.
+Proof. exact C17_build_never_crashes_proof. Qed.
+Print Assumptions C17_guard_never_crashes.
+
+(* Capacity on the LOWERED program.  A condition lowers to one match set per distinct parameter key, so the
+   size that counts is the number of lowered match sets (n_match_sets), not the number of rules or of
+   conditions.  Every program whose lowered size exceeds the supported size is answered with an error, and
+   no program whatever crashes the builder. *)
+Theorem C17_over_limit_is_error :
+  forall p : program, max_match_set_len <? n_match_sets p = true -> compile p = WErr.
+Proof. exact over_limit_lowered. Qed.
 Print Assumptions C17_over_limit_is_error.
 
 Theorem C17_build_never_crashes :
-  forall n ds, (forall i, In i ds -> i < n) -> build_userspace n ds <> WCrashed.
-Proof. exact C17_build_never_crashes_proof. Qed.
+  forall p : program, compile p <> WCrashed.
+Proof. exact compile_never_crashes. Qed.
 Print Assumptions C17_build_never_crashes.
+
+(* A guard that counts conditions (1 + number of '&&' operands) does not have the property. *)
+Definition C17_condition_count_guard_full : Prop :=
+  forall p : program, max_match_set_len <? n_match_sets p = true -> compile_condition_guard p = WErr.
+Theorem C17_condition_count_guard_refuted :
+  exists p, max_match_set_len <? n_match_sets p = true /\ compile_condition_guard p = WCrashed.
+Proof. exact condition_guard_refuted. Qed.
+Print Assumptions C17_condition_count_guard_refuted.
+Theorem C17_condition_count_guard_accepts_oversized :
+  exists p, max_match_set_len <? n_match_sets p = true /\ compile_condition_guard p = WOk tt.
+Proof. exact condition_guard_accepts_oversized. Qed.
+Print Assumptions C17_condition_count_guard_accepts_oversized.
+
+Example C17_capacity_nonvacuous :
+  n_conditions C17_wide_program = 400 /\ n_match_sets C17_wide_program = 1201 /\ compile C17_wide_program = WErr
+  /\ compile (repeat [Cond true [1; 2; 3; 2]] 341) = WOk tt /\ n_match_sets (repeat [Cond true [1; 2; 3; 2]] 341) = 1024.
+Proof. exact capacity_nonvacuous. Qed.
 
 (* Building the typed configuration (model of config.New over ANY schema and ANY decode oracle): an accepted
    configuration has every required section, names no unknown section, and each of its sections passed the
